@@ -322,7 +322,12 @@ private:
       if (increaseBy == 0) return B_NO_ERROR;  // no point waking everyone up for a no-op
 
 #ifdef MUSCLE_VERIF_HOOKS
-      if ((g_muscleVerifSim)&&(g_muscleVerifSim->condNotify)) {if (g_muscleVerifSim->yield) g_muscleVerifSim->yield(MUSCLE_VERIF_YIELD_PRENOTIFY, this); IncreaseNotificationsCount(increaseBy); g_muscleVerifSim->condNotify(this); return B_NO_ERROR;}
+      if (g_muscleVerifSim)
+      {
+         if (g_muscleVerifSim->yield) g_muscleVerifSim->yield(MUSCLE_VERIF_YIELD_PRENOTIFY, this);
+         if (g_muscleVerifSim->condNotify) {IncreaseNotificationsCount(increaseBy); g_muscleVerifSim->condNotify(this); return B_NO_ERROR;}
+         // (condNotify == NULL: the simulator wants the real condition-variable code below to run, and intercepts underneath it)
+      }
 #endif
 
       status_t ret;
